@@ -2,8 +2,3 @@ package main
 
 func cmdSelftest(args []string) int { return 2 }
 func cmdAll(args []string) int      { return 2 }
-
-func searchWitness(e *Engine, res *checkResult, o *Obligation, seed int) map[string]interface{} {
-	return nil
-}
-func rerunWitness(rp map[string]interface{}) (string, int) { return "not implemented", 2 }
